@@ -561,7 +561,8 @@ func decodeKeyCharByUnicodeRuneStream(s *Stream) ([]byte, error) {
 	const defaultOffset = 4
 	const surrogateOffset = 6
 
-	if s.cursor+defaultOffset >= s.length {
+	for s.cursor+defaultOffset >= s.length {
+		// a reader may deliver the four digits in several pieces
 		if !s.read() {
 			return nil, errors.ErrInvalidCharacter(s.char(), "escaped unicode char", s.totalOffset())
 		}
@@ -570,8 +571,7 @@ func decodeKeyCharByUnicodeRuneStream(s *Stream) ([]byte, error) {
 	r := unicodeToRune(s.buf[s.cursor : s.cursor+defaultOffset])
 	if utf16.IsSurrogate(r) {
 		s.cursor += defaultOffset
-		if s.cursor+surrogateOffset >= s.length {
-			s.read()
+		for s.cursor+surrogateOffset >= s.length && s.read() {
 		}
 		if s.cursor+surrogateOffset >= s.length || s.buf[s.cursor] != '\\' || s.buf[s.cursor+1] != 'u' {
 			s.cursor += defaultOffset - 1
@@ -588,9 +588,16 @@ func decodeKeyCharByUnicodeRuneStream(s *Stream) ([]byte, error) {
 }
 
 func decodeKeyCharByEscapeCharStream(s *Stream) ([]byte, error) {
-	c := s.buf[s.cursor]
-	s.cursor++
 RETRY:
+	c := s.buf[s.cursor]
+	if c == nul {
+		// the escaped character has not been read yet
+		if !s.read() {
+			return nil, errors.ErrInvalidCharacter(s.char(), "escaped char", s.totalOffset())
+		}
+		goto RETRY
+	}
+	s.cursor++
 	switch c {
 	case '"':
 		return []byte{'"'}, nil
@@ -610,11 +617,6 @@ RETRY:
 		return []byte{'\t'}, nil
 	case 'u':
 		return decodeKeyCharByUnicodeRuneStream(s)
-	case nul:
-		if !s.read() {
-			return nil, errors.ErrInvalidCharacter(s.char(), "escaped char", s.totalOffset())
-		}
-		goto RETRY
 	default:
 		return nil, errors.ErrUnexpectedEndOfJSON("struct field", s.totalOffset())
 	}
